@@ -74,6 +74,8 @@ type c01Case struct {
 	// History: requests matched on the same tree before Path (recorded only when a fresh tree alone does
 	// not show the mismatch)
 	History []string `json:"earlier_requests_on_the_same_tree,omitempty"`
+	// Between: these paths were matched on the tree after every registration but the last
+	Between []string `json:"requests_served_between_the_registrations,omitempty"`
 	// Served: flame level, the requests served on the same instance before this one (same rule)
 	Served []c01Req `json:"earlier_requests_on_the_same_instance,omitempty"`
 }
@@ -106,9 +108,20 @@ type c01Env struct {
 // both sides reject is simply not part of the registered set. usable=false when implementation and reference
 // disagree on a registration verdict (that is C08's finding, not C01's) or a shape is unclassified.
 func c01Build(rs []catRoute) (tree route.Tree, trie *ref.Trie, registered []int, usable bool) {
+	return c01BuildServing(rs, nil)
+}
+
+// c01BuildServing: as c01Build, with every path of between matched on the tree after each registration
+// but the last (an application that keeps registering routes after it has begun to serve).
+func c01BuildServing(rs []catRoute, between []string) (tree route.Tree, trie *ref.Trie, registered []int, usable bool) {
 	tree = route.NewTree()
 	trie = ref.NewTrie()
 	for i, r := range rs {
+		if i > 0 {
+			for _, p := range between {
+				safeMatch(tree, p, nil)
+			}
+		}
 		reason, other := trie.Validate(r.Ref)
 		_, err, pan := safeAddRoute(tree, r.AST)
 		if other || pan != nil || (reason == "") != (err == nil) {
@@ -251,6 +264,34 @@ func c01Configs(r *core.Run, cat []catRoute, k int, paths []string, label string
 					l.Violate("tree/"+key, bad+fmt.Sprintf(" [routes %q, path %q, %d earlier requests on the tree]", c01Texts(rs), p, len(cs.History)), cs)
 				} else if nt && (c+pi)%99991 == 0 {
 					l.Sample(map[string]interface{}{"level": label, "routes": c01Texts(rs), "path": p, "outcome": class})
+				}
+			}
+			if k >= 2 {
+				// the same registrations with the whole path set served between them: the final tree must give
+				// the answers of the tree built in one go (which were just compared with the model)
+				if t2, _, reg2, ok2 := c01BuildServing(rs, paths); ok2 && len(reg2) == len(reg) {
+					l.Extra["trees_built_with_requests_between_registrations"]++
+					for _, p := range paths {
+						l1, _, f1, _ := safeMatch(tree, p, nil)
+						l2, _, f2, pan2 := safeMatch(t2, p, nil)
+						l.Evals++
+						l.Transitions++
+						l.Traces++
+						if pan2 != nil || f1 != f2 || (f1 && l1.Route() != l2.Route()) {
+							got := "not found"
+							if f2 {
+								got = l2.Route()
+							}
+							want := "not found"
+							if f1 {
+								want = l1.Route()
+							}
+							l.Class("mismatch")
+							l.Violate("tree/registration-after-serving", fmt.Sprintf("with requests served between the registrations the path %q is answered %q (panic %v), the same routes registered in one go answer %q [routes %q]", p, got, pan2, want, c01Texts(rs)),
+								c01Case{Routes: c01Texts(rs), Path: p, Between: paths})
+							break
+						}
+					}
 				}
 			}
 		}
@@ -460,7 +501,7 @@ func c01Run(r *core.Run) {
 		"Go regexp is trusted (used independently per expression by the reference)",
 		"registration verdict differences are C08's finding; such configurations are skipped here and counted",
 	}
-	r.Rule = "engine E: every ordered tuple of distinct catalogue routes registered on a fresh route.Tree (and Flame for the method dimension) x every path; oracle = declarative admission (found iff some form admits) AND the documented priority procedure over a reference trie (winner equality); non-trivial = (set,path) admitted by >=2 registered forms or won after back-tracking out of a higher-ranked branch"
+	r.Rule = "engine E: every ordered tuple of distinct catalogue routes registered on a fresh route.Tree (and Flame for the method dimension) x every path; every tuple also with the whole path set served between its registrations (same final answers required); oracle = declarative admission (found iff some form admits) AND the documented priority procedure over a reference trie (winner equality); non-trivial = (set,path) admitted by >=2 registered forms or won after back-tracking out of a higher-ranked branch"
 	var maxSegs, pathSegs, pairPathSegs int
 	if r.Thorough() {
 		r.SetBudget(14 * time.Minute)
@@ -537,6 +578,18 @@ func c01Replay(raw json.RawMessage) (bool, string) {
 		tree, trie, reg, usable := c01Build(cat)
 		if !usable || len(reg) == 0 {
 			return false, "configuration not registrable as recorded"
+		}
+		if len(c.Between) > 0 {
+			t2, _, _, ok2 := c01BuildServing(cat, c.Between)
+			if !ok2 {
+				return false, "configuration not registrable as recorded"
+			}
+			l1, _, f1, _ := safeMatch(tree, c.Path, nil)
+			l2, _, f2, pan2 := safeMatch(t2, c.Path, nil)
+			if pan2 != nil || f1 != f2 || (f1 && l1.Route() != l2.Route()) {
+				return true, fmt.Sprintf("path %q answered differently (found %v vs %v, panic %v) when requests are served between the registrations", c.Path, f2, f1, pan2)
+			}
+			return false, ""
 		}
 		for _, h := range c.History {
 			safeMatch(tree, h, nil)
